@@ -43,7 +43,7 @@ theorem c17_operation :
       · by_cases h3 : s = "histogram"
         · simp [h3]
         · by_cases h4 : s = "summary"
-          · simp [h4]
+          · simp_all
           · have e1 : (s == "counter") = false := by simpa using h1
             have e2 : (s == "gauge") = false := by simpa using h2
             have e3 : (s == "histogram") = false := by simpa using h3
@@ -65,47 +65,62 @@ theorem c17_arguments (ev : String → Outcome) (d : MDef) (j : Nat) (hv : valid
   rcases h with rfl | rfl | rfl | rfl <;>
     simp [processorSignatures, List.lookup, metricCallArgs, argValue]
 
-/-- **value** — no expression (or an empty one) ⇒ 1; an int ⇒ that number; a bool ⇒ 1 / 0; a float ⇒ itself;
-    a failing expression or a value `float()` refuses (not a number, an int too large for a float, a `__float__`
-    that raises) ⇒ 1. -/
+/-- **value** — no expression (or an empty one) ⇒ 1; a bool ⇒ 1 / 0; a float ⇒ itself; a failing expression or a
+    value `float()` refuses (not a number, an int too large for a float, a `__float__` that raises) ⇒ 1; otherwise
+    whatever `float()` makes of it. -/
 theorem c17_value (ev : String → Outcome) (d : MDef) :
-    (truthy d.expr = none → metricValue ev d = "1.0") ∧
-    (∀ e, truthy d.expr = some e → (ev e).failed = true → metricValue ev d = "1.0") ∧
-    (∀ e, truthy d.expr = some e → floatRepr (ev e) = none → metricValue ev d = "1.0") ∧
-    (∀ e r, truthy d.expr = some e → floatRepr (ev e) = some r → metricValue ev d = r) ∧
-    (∀ e n, truthy d.expr = some e → (ev e).failed = false → (ev e).isExc = false → (ev e).val = .int n →
-        n.natAbs < 2 ^ 1024 → metricValue ev d = toString n ++ ".0") ∧
-    (∀ e n, truthy d.expr = some e → (ev e).val = .int n → n.natAbs ≥ 2 ^ 1024 → metricValue ev d = "1.0") := by
-  refine ⟨?_, ?_, ?_, ?_, ?_, ?_⟩
-  · intro h; simp [metricValue, h, defaultValue, metricValueDefault, intFloat]; decide
-  · intro e h hf
-    simp [metricValue, h, floatRepr, hf, defaultValue, metricValueDefault, intFloat]; decide
-  · intro e h hf
-    simp [metricValue, h, hf, defaultValue, metricValueDefault, intFloat]; decide
+    defaultValue = "int:1" ∧
+    (truthy d.expr = none → metricValue ev d = defaultValue) ∧
+    (∀ e, truthy d.expr = some e → (ev e).failed = true → metricValue ev d = defaultValue) ∧
+    (∀ e, truthy d.expr = some e → floatRepr (ev e) = none → metricValue ev d = defaultValue) ∧
+    (∀ e r, truthy d.expr = some e → floatRepr (ev e) = some r → metricValue ev d = "float:" ++ r) ∧
+    (∀ e n, truthy d.expr = some e → (ev e).val = .int n → n.natAbs ≥ floatOverflowFrom → metricValue ev d = defaultValue) := by
+  refine ⟨by decide, ?_, ?_, ?_, ?_, ?_⟩
+  · intro h; simp [metricValue, h]
+  · intro e h hf; simp [metricValue, h, floatRepr, hf]
+  · intro e h hf; simp [metricValue, h, hf]
   · intro e r h hf; simp [metricValue, h, hf]
-  · intro e n h h1 h2 h3 h4
-    have : ¬ (n.natAbs ≥ 2 ^ 1024) := by omega
-    simp [metricValue, h, floatRepr, h1, h2, h3, intFloat, this]
   · intro e n h h3 h4
-    have hd : defaultValue = "1.0" := by decide
-    simp only [metricValue, h, floatRepr, h3]
-    split
-    · simpa using hd
-    · simpa using hd
+    have hn : floatRepr (ev e) = none := by
+      simp only [floatRepr, h3, intFloat]
+      split
+      · rfl
+      · simp_all
+    simp [metricValue, h, hn]
 
-/-- examples of `float()` on text -/
+/-- tripwire: ints of at most 15 digits reach the processor as that number (examples; the general fact is
+    `Dec.repr` on `Dec.inAlphabet`, tied to CPython by the correspondence check). -/
+theorem c17_value_int_examples :
+    intFloat 0 = some "0.0" ∧ intFloat 7 = some "7.0" ∧ intFloat (-3) = some "-3.0" ∧ intFloat 1200 = some "1200.0" ∧
+    intFloat 123456789012 = some "123456789012.0" ∧ intFloat (-(10 ^ 15 - 1)) = some "-999999999999999.0" := by decide
+
+/-- the print switches to exponent notation from 10^16 on, and an int from 2^1024 − 2^970 on is an OverflowError
+    (value 1); 2^53 + 1 has 16 significant digits: outside `Dec.inAlphabet`, where the model's print is NOT claimed
+    to be CPython's (CPython prints …992.0). -/
+theorem c17_big_int_witness :
+    intFloat (10 ^ 22) = some "1e+22" ∧ intFloat (10 ^ 16) = some "1e+16" ∧ intFloat (10 ^ 15) = some "1000000000000000.0" ∧
+    intFloat (-(12 * 10 ^ 20)) = some "-1.2e+21" ∧ (intDec (2 ^ 53 + 1)).inAlphabet = false ∧
+    (intDec (10 ^ 22)).inAlphabet = true ∧
+    intFloat (floatOverflowFrom : Nat) = none ∧ (intFloat ((floatOverflowFrom - 1 : Nat) : Int)).isSome = true := by decide
+
+/-- examples of `float()` on text (CPython's answers) -/
 example : parseFloatText " 12 " = some "12.0" ∧ parseFloatText "3.50" = some "3.5" ∧
     parseFloatText "-7" = some "-7.0" ∧ parseFloatText "+1_000.25" = some "1000.25" ∧ parseFloatText ".5" = some "0.5" ∧
     parseFloatText "abc" = none ∧ parseFloatText "" = none ∧ parseFloatText "1.2.3" = none ∧
-    parseFloatText "1_" = none ∧ parseFloatText "-0" = some "-0.0" := by decide
+    parseFloatText "1_" = none ∧ parseFloatText "-0" = some "-0.0" ∧ parseFloatText "1e5" = some "100000.0" ∧
+    parseFloatText "1.5E-7" = some "1.5e-07" ∧ parseFloatText "2e22" = some "2e+22" ∧ parseFloatText "0.0001" = some "0.0001" ∧
+    parseFloatText "0.00001" = some "1e-05" ∧ parseFloatText "-Inf" = some "-inf" ∧ parseFloatText "nan" = some "nan" ∧
+    parseFloatText "1e" = none ∧ parseFloatText "1._5" = none ∧ parseFloatText "1.e2" = some "100.0" := by decide
 
 /-- **labels** — a label with an expression gets the text of its value (or of its error), one without gets its
     static value untouched; every key appears once, a repeated key keeps its first position and its last value. -/
 theorem c17_label_value (ev : String → Outcome) (l : Label) :
-    (∀ e, truthy l.expr = some e → labelValue ev l = .text (ev e).text) ∧
+    (∀ e, truthy l.expr = some e → (ev e).strRaises = false → labelValue ev l = .text (ev e).text) ∧
+    (∀ e, truthy l.expr = some e → (ev e).strRaises = true → labelValue ev l = .text "expression failed") ∧
     (truthy l.expr = none → labelValue ev l = .static l.static) := by
-  constructor
-  · intro e h; simp [labelValue, h]
+  refine ⟨?_, ?_, ?_⟩
+  · intro e h hs; simp [labelValue, h, hs]
+  · intro e h hs; simp [labelValue, h, hs, labelFailedText]
   · intro h; simp [labelValue, h]
 
 theorem dictSet_keys (d : List (String × LVal)) (k : String) (v : LVal) :
@@ -232,7 +247,7 @@ theorem c17_no_processor (c : Cfg) (hs : List Hit) : ∀ (st : Stats),
       simp [stepHit, metricCanTrigger]
     simp [runFrom, this, ih]
 
-/-- with a processor active the metric action is gated exactly like any other action (C04 / C10), and a permitted
+/-- tripwire: with a processor active the metric action is gated exactly like any other action (C04 / C10), and a permitted
     hit reports the whole definition list. -/
 theorem c17_gated (c : Cfg) (procs : List Proc) (hp : procs ≠ []) (st : Stats) (h : Hit) :
     stepHit c procs st h =
@@ -303,9 +318,9 @@ theorem c17_healthy_gets_all (ev : String → Outcome) (defs : List MDef) (q : N
 /-! ### non-vacuity -/
 
 private def evm : String → Outcome := fun e =>
-  if e = "n" then ⟨false, false, "int", "7", .int 7⟩
-  else if e = "s" then ⟨false, false, "str", "2.50", .str "2.50"⟩
-  else ⟨true, true, "NameError", "name 'zz' is not defined", .other⟩
+  if e = "n" then ⟨false, false, "int", "7", .int 7, false⟩
+  else if e = "s" then ⟨false, false, "str", "2.50", .str "2.50", false⟩
+  else ⟨true, true, "NameError", "name 'zz' is not defined", .other, false⟩
 
 private def defs1 : List MDef :=
   [⟨"m1", "COUNTER", [⟨"a", some "x", none⟩, ⟨"b", none, some "n"⟩], none, none, none, none⟩,
@@ -315,7 +330,7 @@ private def defs1 : List MDef :=
 /-- three definitions (one of an unknown type), two processors of which the first fails on its first attempt:
     the second processor still gets both valid metrics; the first gets only the second metric. -/
 example : (callsTo 1 (process evm [⟨[0]⟩, ⟨[]⟩] defs1)).map (fun c => (c.op, (c.args.lookup .value))) =
-    [("counter", some (.num "1.0")), ("gauge", some (.num "2.5"))] := by decide
+    [("counter", some (.num "int:1")), ("gauge", some (.num "float:2.5"))] := by decide
 example : (callsTo 0 (process evm [⟨[0]⟩, ⟨[]⟩] defs1)).map (·.op) = ["gauge"] := by decide
 example : labelsOf evm [⟨"a", some "x", none⟩, ⟨"b", none, some "n"⟩, ⟨"a", none, some "zz"⟩]
     = [("a", .text "name 'zz' is not defined"), ("b", .text "7")] := by decide
